@@ -6,10 +6,17 @@
 //	   intervals around NotAfter, root sets) and certificate lifetimes around every
 //	   threshold: ll.SelectByStatus(usable).Compatible(cert, root, roots) then LogsByGroup.
 //	B  submission.GetSCTs under VIRTUAL TIME (synctest bubble) with a scripted Submitter:
-//	   per-log outcome SCT / error / hang, latency, context obedience, caller deadline.
+//	   per-log outcome SCT / error / hang, latency, context obedience, and the caller's
+//	   context: none at all / a deadline (far away or mid-flight) / cancelled at an instant.
 //	   Recorded: the order of SubmitToLog starts and returns (this fixes the linearisation
 //	   the Coq side replays through the state machine), the returned set, the verdict, the
-//	   per-log request counts.
+//	   per-log request counts, and TERMINATION: the call runs in a goroutine of its own and
+//	   "has not returned once every goroutine of the bubble is blocked for good" is the
+//	   observed outcome Hang; after the return (and after the harness has made every call
+//	   still in flight return) the goroutines of the bubble are listed: none may be left.
+//	   B-shared is the termination grid: a log reached by the races of two groups x its
+//	   outcome (SCT, error, hang honouring / ignoring its context) x policy satisfiable /
+//	   unsatisfiable without it x every kind of caller context.
 //	C  Distributor.AddChain / AddPreChain end to end with a scripted LogClientBuilder
 //	   (roots learnt through RefreshRoots, root checking on/off, pending-logs side submission).
 //	D  (only in a -race build) concurrent use: weight changes against GetSubmissionSession,
@@ -561,7 +568,7 @@ type logScript struct {
 }
 
 type evt struct {
-	Kind   string        `json:"kind"` // start ret cancel done
+	Kind   string        `json:"kind"` // start ret cancel done hang
 	Log    int           `json:"log,omitempty"`
 	SCT    bool          `json:"sct,omitempty"`
 	CtxErr bool          `json:"ctx_err,omitempty"`
@@ -684,6 +691,8 @@ func coqEvs(evs []evt) string {
 			xs = append(xs, "ECancel")
 		case "done":
 			xs = append(xs, "EDone")
+		case "hang":
+			xs = append(xs, "EHang")
 		}
 	}
 	return lib.List(xs)
@@ -804,10 +813,117 @@ type runObs struct {
 	Returned  time.Duration `json:"returned_at_ns"`
 	Panic     string        `json:"panic,omitempty"`
 	Side      []evt         `json:"side_submission_events,omitempty"`
+	// Termination observables (see runBubble).
+	Hang             bool     `json:"hang,omitempty"`                    // the call had not returned at the horizon (every goroutine of the bubble blocked, no timer left before it)
+	Inflight         []int    `json:"calls_in_flight_at_hang,omitempty"` // SubmitToLog calls (of the observed submission) started and not returned at that instant
+	HangAfterRelease bool     `json:"hang_after_release,omitempty"`      // ... and still had not returned after every call in flight had been made to return
+	Leaked           []string `json:"goroutines_left,omitempty"`         // goroutines of the call still alive after it returned and every call in flight returned, the caller's context not yet ended by the harness
+	Stuck            []string `json:"goroutines_stuck,omitempty"`        // goroutines still alive after the caller's context was cancelled as well
+}
+
+// ctxSpec is the caller's context of one observed call.
+//
+//	none      no deadline, never cancelled while the call is observed
+//	deadline  context.WithTimeout(At)
+//	cancel    context.WithCancel, cancelled by the caller at the instant At
+type ctxSpec struct {
+	Kind string        `json:"kind"`
+	At   time.Duration `json:"at_ns,omitempty"`
+}
+
+func ctxNone() ctxSpec                    { return ctxSpec{Kind: "none"} }
+func ctxDeadline(d time.Duration) ctxSpec { return ctxSpec{Kind: "deadline", At: d} }
+func ctxCancelAt(d time.Duration) ctxSpec { return ctxSpec{Kind: "cancel", At: d} }
+
+// ends: the context ends by itself at At.
+func (c ctxSpec) ends() bool { return c.Kind != "none" }
+
+// make must be called inside the bubble.  The returned cancel function is the harness's own
+// (clean-up after the observation), not part of the scenario.
+func (c ctxSpec) make() (context.Context, context.CancelFunc) {
+	switch c.Kind {
+	case "deadline":
+		return context.WithTimeout(context.Background(), c.At)
+	case "cancel":
+		ctx, cancel := context.WithCancel(context.Background())
+		tm := time.AfterFunc(c.At, cancel)
+		return ctx, func() { tm.Stop(); cancel() }
+	}
+	return context.WithCancel(context.Background())
+}
+
+// inflightAt: logs whose SubmitToLog call was started and had not returned strictly before
+// the instant `before` (negative = at the end of the recorded events).
+func inflightAt(evs []evt, before time.Duration) []int {
+	in := map[int]bool{}
+	for _, e := range evs {
+		if before >= 0 && e.At >= before {
+			continue
+		}
+		switch e.Kind {
+		case "start":
+			in[e.Log] = true
+		case "ret":
+			delete(in, e.Log)
+		}
+	}
+	var out []int
+	for l := range in {
+		out = append(out, l)
+	}
+	sort.Ints(out)
+	return out
+}
+
+// maxSession: the longest submission session of the policy; the stagger of groupRace issues
+// the last request of a group at most that many PostBatchIntervals (1 s) after the start.
+func maxSession(gs []groupSpec) int {
+	n := 0
+	for _, g := range gs {
+		if len(g.Sess) > n {
+			n = len(g.Sess)
+		}
+	}
+	return n
+}
+
+// propTermination: "it always terminates, for every pattern of log latencies, failures and
+// goroutine schedules", evaluated on what was observed of one call.  The only excuse for a
+// call that has not returned is the fairness premise of the property: a SubmitToLog call is
+// still in flight (the log hangs) while the caller's context has not ended.  The harness
+// closes that premise itself (it makes every call in flight return), after which the call
+// has to return and no goroutine of it may be left - all without the caller's context ending.
+func propTermination(gs []groupSpec, sc map[int]logScript, o *runObs, cs ctxSpec) (bool, string) {
+	if o.Hang {
+		switch {
+		case o.Cancelled:
+			return false, "getscts never-returns although-context-ended ctx=" + cs.Kind
+		case len(o.Inflight) == 0:
+			return false, "getscts never-returns no-call-in-flight ctx=" + cs.Kind
+		case goodCfg(gs) && enough(gs, sc):
+			return false, "getscts never-returns although-enough-logs-answered ctx=" + cs.Kind
+		case o.HangAfterRelease:
+			return false, "getscts never-returns after-every-call-returned ctx=" + cs.Kind
+		}
+	}
+	if len(o.Leaked) > 0 {
+		return false, fmt.Sprintf("getscts goroutines-left-after-return n=%d ctx=%s", len(o.Leaked), cs.Kind)
+	}
+	if len(o.Stuck) > 0 {
+		return false, fmt.Sprintf("getscts goroutines-left-after-context-end n=%d ctx=%s", len(o.Stuck), cs.Kind)
+	}
+	// A call that came back only because the caller's context ended, although every request
+	// of every group had long been issued and none was outstanding, did not terminate by
+	// itself: it was rescued by the caller's deadline.
+	if !o.Hang && o.Cancelled && cs.ends() && cs.At > time.Duration(maxSession(gs)+1)*time.Second &&
+		o.Returned >= cs.At && len(inflightAt(o.Evs, cs.At)) == 0 {
+		return false, "getscts idle-until-context-end ctx=" + cs.Kind
+	}
+	return true, ""
 }
 
 // propRun: the property's sentences on one observed GetSCTs-like call.
-func propRun(gs []groupSpec, sc map[int]logScript, o *runObs, allowed map[int]bool) (bool, string) {
+func propRun(gs []groupSpec, sc map[int]logScript, o *runObs, allowed map[int]bool, cs ctxSpec) (bool, string) {
 	if o.Panic != "" {
 		return false, "getscts panic"
 	}
@@ -831,7 +947,7 @@ func propRun(gs []groupSpec, sc map[int]logScript, o *runObs, allowed map[int]bo
 			return false, fmt.Sprintf("getscts sct-from-log-that-gave-none log=%d", l)
 		}
 	}
-	if o.OK {
+	if o.OK && !o.Hang {
 		for _, g := range gs {
 			n := 0
 			for _, l := range o.SCTs {
@@ -844,7 +960,10 @@ func propRun(gs []groupSpec, sc map[int]logScript, o *runObs, allowed map[int]bo
 			}
 		}
 	}
-	if !o.OK && !o.Cancelled && goodCfg(gs) && enough(gs, sc) {
+	if ok, note := propTermination(gs, sc, o, cs); !ok {
+		return false, note
+	}
+	if !o.Hang && !o.OK && !o.Cancelled && goodCfg(gs) && enough(gs, sc) {
 		sat := true
 		for _, g := range gs {
 			n := 0
@@ -862,31 +981,160 @@ func propRun(gs []groupSpec, sc map[int]logScript, o *runObs, allowed map[int]bo
 	return true, ""
 }
 
-// runBubble executes f inside a synctest bubble and lets every leaked goroutine finish.
-func runBubble(t *testing.T, deadline time.Duration, f func(ctx context.Context, rc *recorder) (scts []int, ok bool)) *runObs {
+// horizon: the virtual instant at which a call that has not returned is declared hung.  The
+// bubble's clock only reaches it when every goroutine of the bubble is durably blocked and no
+// earlier timer (latency, stagger, deadline: all below 11 minutes) is left, so "not returned at
+// the horizon" is "will never return unless something outside the call happens".
+const horizon = 3 * time.Hour
+
+// bubbleGoroutines lists, by the innermost function of /repo (or of the harness) on their
+// stack, the goroutines of the calling goroutine's bubble other than the caller and the
+// synctest machinery.  Called after synctest.Wait, so each of them is durably blocked.
+func bubbleGoroutines() []string {
+	buf := make([]byte, 1<<20)
+	for {
+		n := runtime.Stack(buf, true)
+		if n < len(buf) {
+			buf = buf[:n]
+			break
+		}
+		buf = make([]byte, 2*len(buf))
+	}
+	blocks := strings.Split(string(buf), "\n\n")
+	bubbleOf := func(hdr string) string {
+		i := strings.Index(hdr, "synctest bubble ")
+		if i < 0 {
+			return ""
+		}
+		rest := hdr[i+len("synctest bubble "):]
+		j := strings.IndexAny(rest, "],")
+		if j < 0 {
+			return ""
+		}
+		return rest[:j]
+	}
+	mine := ""
+	if len(blocks) > 0 {
+		mine = bubbleOf(strings.SplitN(blocks[0], "\n", 2)[0]) // the first block is the caller
+	}
+	var out []string
+	if mine == "" {
+		return out
+	}
+	for _, b := range blocks[1:] {
+		lines := strings.Split(b, "\n")
+		if bubbleOf(lines[0]) != mine {
+			continue
+		}
+		where, top := "", ""
+		for _, ln := range lines[1:] {
+			if strings.HasPrefix(ln, "\t") || strings.HasPrefix(ln, "created by ") {
+				continue
+			}
+			fn := ln
+			if k := strings.LastIndex(fn, "("); k > 0 {
+				fn = fn[:k]
+			}
+			if top == "" {
+				top = fn
+			}
+			if where == "" && (strings.Contains(fn, "certificate-transparency-go/") || strings.HasPrefix(fn, "verif/") || strings.HasPrefix(fn, "main.")) {
+				where = fn
+			}
+		}
+		if strings.HasPrefix(top, "internal/synctest.Run") || strings.Contains(b, "testing/synctest.testingSynctestTest(") {
+			continue
+		}
+		if where == "" {
+			where = top
+		}
+		if k := strings.Index(where, "certificate-transparency-go/"); k >= 0 {
+			where = where[k+len("certificate-transparency-go/"):]
+		}
+		state := lines[0]
+		if k := strings.Index(state, "["); k >= 0 {
+			state = strings.TrimSuffix(strings.TrimSpace(state[k:]), ":")
+			if c := strings.Index(state, ","); c >= 0 {
+				state = state[:c] + "]"
+			}
+		}
+		out = append(out, where+" "+state)
+	}
+	sort.Strings(out)
+	return out
+}
+
+// runBubble executes f - one call of the code under test with the caller's context cs - inside
+// a synctest bubble and observes, besides what f returns, whether and how it TERMINATES:
+//
+//  1. f runs in a goroutine of its own; the bubble's main goroutine waits for it up to the
+//     horizon.  Not returned by then = Hang (an observed outcome, not a harness crash), with
+//     the SubmitToLog calls in flight at that instant.
+//  2. (returned) 90 virtual seconds pass so that calls still in flight finish by themselves.
+//  3. Fairness closure: the harness makes every call still in flight return (an error), and
+//     30 more seconds pass.  A hung call has to have returned by now, and of a returned call
+//     no goroutine may be left - the caller's context has NOT been ended by the harness yet.
+//  4. Clean-up: the harness cancels the context; whatever is left after that is Stuck (the
+//     bubble then ends in synctest's deadlock panic, which is swallowed here).
+func runBubble(t *testing.T, cs ctxSpec, f func(ctx context.Context, rc *recorder) (scts []int, ok bool)) *runObs {
 	o := &runObs{}
 	if raceEnabled {
 		defer runtime.GOMAXPROCS(runtime.GOMAXPROCS(1))
 	}
+	type result struct {
+		scts      []int
+		ok        bool
+		panic     string
+		cancelled bool
+		at        time.Duration
+	}
+	defer func() {
+		if p := recover(); p != nil {
+			if len(o.Stuck) > 0 && strings.Contains(fmt.Sprint(p), "deadlock") {
+				return // goroutines that nothing releases: already recorded as an observation
+			}
+			panic(p)
+		}
+	}()
 	synctest.Test(t, func(t *testing.T) {
-		ctx, cancel := context.WithTimeout(context.Background(), deadline)
+		ctx, cancel := cs.make()
 		defer cancel()
 		rc := newRecorder(ctx)
-		func() {
-			defer func() {
-				if p := recover(); p != nil {
-					o.Panic = fmt.Sprint(p)
-				}
+		resCh := make(chan result, 1)
+		go func() {
+			var r result
+			func() {
+				defer func() {
+					if p := recover(); p != nil {
+						r.panic = fmt.Sprint(p)
+					}
+				}()
+				r.scts, r.ok = f(ctx, rc)
 			}()
-			o.SCTs, o.OK = f(ctx, rc)
+			r.cancelled = ctx.Err() != nil
+			rc.add(evt{Kind: "done"})
+			r.at = time.Since(rc.start)
+			resCh <- r
 		}()
-		o.Cancelled = ctx.Err() != nil
-		rc.add(evt{Kind: "done"})
-		o.Returned = time.Since(rc.start)
-		time.Sleep(90 * time.Second) // in-flight calls finish (or are cut off by the deadline)
+		returned := false
+		take := func(r result) {
+			returned = true
+			o.SCTs, o.OK, o.Panic, o.Cancelled, o.Returned = r.scts, r.ok, r.panic, r.cancelled, r.at
+		}
+		// 1. return or hang
+		tm := time.NewTimer(horizon)
+		select {
+		case r := <-resCh:
+			tm.Stop()
+			take(r)
+			time.Sleep(90 * time.Second) // 2. in-flight calls finish (or are cut off by the deadline)
+		case <-tm.C:
+			o.Hang = true
+			o.Cancelled = ctx.Err() != nil
+			rc.add(evt{Kind: "hang"})
+			o.Returned = time.Since(rc.start)
+		}
 		rc.stop()
-		close(rc.release)
-		time.Sleep(time.Second)
 		rc.mu.Lock()
 		o.Evs, o.Side = rc.evs, rc.side
 		o.Counts = map[int]int{}
@@ -894,6 +1142,34 @@ func runBubble(t *testing.T, deadline time.Duration, f func(ctx context.Context,
 			o.Counts[k] = v
 		}
 		rc.mu.Unlock()
+		if o.Hang {
+			o.Inflight = inflightAt(o.Evs, -1)
+		}
+		// 3. every call in flight returns; the caller's context is left alone
+		close(rc.release)
+		time.Sleep(30 * time.Second)
+		synctest.Wait()
+		if !returned {
+			select {
+			case r := <-resCh:
+				returned = true
+				_ = r // what a hung call returns once released is not part of the observation
+			default:
+				o.HangAfterRelease = true
+			}
+		}
+		o.Leaked = bubbleGoroutines()
+		// 4. clean-up
+		cancel()
+		time.Sleep(time.Second)
+		synctest.Wait()
+		if !returned {
+			select {
+			case <-resCh:
+			default:
+			}
+		}
+		o.Stuck = bubbleGoroutines()
 	})
 	sort.Ints(o.SCTs)
 	return o
@@ -915,11 +1191,27 @@ func coqReqs(ids []int, counts map[int]int) string {
 	return lib.List(xs)
 }
 
-func pickDeadline(r *mrand.Rand) time.Duration {
-	if r.Intn(10) < 3 {
-		return time.Duration(r.Intn(9))*time.Second + 500*time.Millisecond + time.Duration(1+2*r.Intn(50))*time.Microsecond
+// longDeadline: a deadline far beyond every latency and stagger of a scenario.
+const longDeadline = 10*time.Minute + 500*time.Millisecond + time.Microsecond
+
+// shortInstant: an instant in the middle of a scenario; the odd microsecond keeps it apart
+// from every return (milliseconds) and stagger timer (whole seconds).
+func shortInstant(r *mrand.Rand) time.Duration {
+	return time.Duration(r.Intn(9))*time.Second + 500*time.Millisecond + time.Duration(1+2*r.Intn(50))*time.Microsecond
+}
+
+// pickCtx: the caller's context - none at all, a deadline (far away or mid-flight), or a
+// cancellation by the caller at an instant mid-flight.
+func pickCtx(r *mrand.Rand) ctxSpec {
+	switch x := r.Intn(20); {
+	case x < 7:
+		return ctxNone()
+	case x < 11:
+		return ctxDeadline(longDeadline)
+	case x < 16:
+		return ctxDeadline(shortInstant(r))
 	}
-	return 10*time.Minute + 500*time.Millisecond + time.Microsecond
+	return ctxCancelAt(shortInstant(r))
 }
 
 func genGroups(r *mrand.Rand) ([]groupSpec, []int, string) {
@@ -993,6 +1285,8 @@ func outcomeTag(o *runObs) string {
 	switch {
 	case o.Panic != "":
 		return "panic"
+	case o.Hang:
+		return "hang"
 	case o.Cancelled && o.OK:
 		return "cancelled+success"
 	case o.Cancelled:
@@ -1003,47 +1297,166 @@ func outcomeTag(o *runObs) string {
 	return "failure"
 }
 
+// sharedFailing: a log that does not answer with an SCT and is in the session of two groups,
+// i.e. one that two group races reach (the second one has to wait for the first one's outcome).
+func sharedFailing(gs []groupSpec, sc map[int]logScript) (errShared, hangShared bool) {
+	n := map[int]int{}
+	for _, g := range gs {
+		for _, l := range g.Sess {
+			n[l]++
+		}
+	}
+	for l, k := range n {
+		if k >= 2 {
+			switch sc[l].Outcome {
+			case oErr:
+				errShared = true
+			case oHang:
+				hangShared = true
+			}
+		}
+	}
+	return
+}
+
+// terminationTags: the classes of the termination grid a scenario falls in.
+func terminationTags(prefix string, gs []groupSpec, sc map[int]logScript, cs ctxSpec, o *runObs) []string {
+	tags := []string{prefix + ":ctx=" + cs.Kind}
+	if cs.Kind == "deadline" && cs.At == longDeadline {
+		tags[0] += "(far)"
+	}
+	sat := "unsatisfiable"
+	if enough(gs, sc) {
+		sat = "satisfiable"
+	}
+	tags = append(tags, prefix+":policy-"+sat)
+	es, hs := sharedFailing(gs, sc)
+	if es {
+		tags = append(tags, prefix+":shared-log-error", prefix+":shared-log-error+"+sat+"+ctx="+cs.Kind)
+	}
+	if hs {
+		tags = append(tags, prefix+":shared-log-hang", prefix+":shared-log-hang+"+sat+"+ctx="+cs.Kind)
+	}
+	if o.Hang {
+		tags = append(tags, prefix+":hang-with-call-in-flight="+fmt.Sprint(len(o.Inflight) > 0))
+	}
+	return tags
+}
+
+// oneRun: one observed submission.GetSCTs call.
+func oneRun(t *testing.T, w adder, gs []groupSpec, ids []int, kind string, sc map[int]logScript, cs ctxSpec, extra ...string) {
+	groups := mkPolicyData(gs)
+	o := runBubble(t, cs, func(ctx context.Context, rc *recorder) ([]int, bool) {
+		res, err := submission.GetSCTs(ctx, &scriptedSubmitter{rc, sc}, []ct.ASN1Cert{{Data: []byte{1, 2, 3}}}, false, groups)
+		return sctIDs(res), err == nil
+	})
+	ok, note := propRun(gs, sc, o, nil, cs)
+	if ok {
+		union := map[int]bool{}
+		for _, g := range gs {
+			for _, l := range g.Sess {
+				union[l] = true
+			}
+		}
+		for l, c := range o.Counts {
+			if c > 0 && !union[l] {
+				ok, note = false, fmt.Sprintf("getscts contacted-log-outside-sessions log=%d", l)
+			}
+		}
+	}
+	if ok && cs.ends() && o.Returned > cs.At+time.Second {
+		ok, note = false, "getscts returned-after-deadline"
+	}
+	tags := append([]string{"B:" + kind, "B:" + outcomeTag(o), fmt.Sprintf("B:logs=%d", len(ids))}, terminationTags("B", gs, sc, cs, o)...)
+	w.Add(lib.Case{
+		Coq:    fmt.Sprintf("CRun %s %s %s %s %s", coqGroups(gs), coqEvs(o.Evs), nlist(o.SCTs), lib.Bool(o.OK), coqReqs(ids, o.Counts)),
+		Input:  map[string]interface{}{"kind": "getscts", "groups": gs, "scripts": sc, "context": cs},
+		Impl:   o,
+		PropOK: ok, Note: note,
+		Tags: append(tags, extra...),
+	})
+}
+
 func streamRuns(t *testing.T, r *mrand.Rand, w adder, n int) {
 	for i := 0; i < n; i++ {
 		gs, ids, kind := genGroups(r)
 		bias := []int{95, 75, 55}[r.Intn(3)]
 		sc := genScripts(r, ids, bias)
-		deadline := pickDeadline(r)
+		cs := pickCtx(r)
 		if i < 2 { // the known pre-fix scenario: every log slower than the stagger interval
 			gs = []groupSpec{{1, []int{1}, 1, false, []int{1}}, {2, []int{2}, 1, false, []int{2}}, {0, []int{1, 2}, 2, true, []int{1, 2}}}
 			ids = []int{1, 2}
 			sc = map[int]logScript{1: {oSCT, 5*time.Second + 3*time.Millisecond, true}, 2: {oSCT, 5*time.Second + 10*time.Millisecond, true}}
-			deadline, kind = 10*time.Minute+time.Microsecond, "chrome-like"
-		}
-		groups := mkPolicyData(gs)
-		o := runBubble(t, deadline, func(ctx context.Context, rc *recorder) ([]int, bool) {
-			res, err := submission.GetSCTs(ctx, &scriptedSubmitter{rc, sc}, []ct.ASN1Cert{{Data: []byte{1, 2, 3}}}, false, groups)
-			return sctIDs(res), err == nil
-		})
-		ok, note := propRun(gs, sc, o, nil)
-		if ok {
-			union := map[int]bool{}
-			for _, g := range gs {
-				for _, l := range g.Sess {
-					union[l] = true
-				}
-			}
-			for l, c := range o.Counts {
-				if c > 0 && !union[l] {
-					ok, note = false, fmt.Sprintf("getscts contacted-log-outside-sessions log=%d", l)
-				}
+			cs, kind = ctxDeadline(10*time.Minute+time.Microsecond), "chrome-like"
+			if i == 1 {
+				cs = ctxNone()
 			}
 		}
-		if ok && o.Returned > deadline+time.Second {
-			ok, note = false, "getscts returned-after-deadline"
+		oneRun(t, w, gs, ids, kind, sc, cs)
+	}
+}
+
+// streamShared is the termination grid: policies in which a log is reached by the races of
+// TWO groups (Chrome-shaped: every log is in its operator group and in All-logs; or generic
+// overlapping groups without a base group), that log answering with an SCT / an error /
+// never (honouring or ignoring its context), the policy being satisfiable or unsatisfiable
+// without it, under every kind of caller context.  The race of the second group does not
+// submit again: it waits for the outcome obtained by the first one, so whatever that
+// outcome is, it has to be made known - or the second race, and the call, never ends.
+func streamShared(t *testing.T, r *mrand.Rand, w adder, rounds int) {
+	type shape struct {
+		name string
+		gs   []groupSpec
+		ids  []int
+		fail []int // the logs that do not answer with an SCT
+	}
+	g := func(name int, min int, base bool, logs ...int) groupSpec {
+		return groupSpec{name, logs, min, base, append([]int(nil), logs...)}
+	}
+	shapes := []shape{
+		// the only log of a group fails: unsatisfiable
+		{"only-log-of-group", []groupSpec{g(1, 1, false, 1), g(2, 1, false, 2), g(0, 2, true, 1, 2)}, []int{1, 2}, []int{1}},
+		// every group can be met, the total cannot
+		{"total-short", []groupSpec{g(1, 1, false, 1, 2), g(2, 1, false, 3), g(0, 3, true, 1, 2, 3)}, []int{1, 2, 3}, []int{2}},
+		// a spare log of the same group answers: satisfiable
+		{"spare-in-group", []groupSpec{g(1, 1, false, 1, 2), g(2, 1, false, 3), g(0, 2, true, 1, 2, 3)}, []int{1, 2, 3}, []int{1}},
+		// the failing log is not needed at all
+		{"not-needed", []groupSpec{g(1, 1, false, 1), g(2, 1, false, 2, 3), g(0, 2, true, 1, 2, 3)}, []int{1, 2, 3}, []int{3}},
+		// several fail, one group left without any
+		{"group-wiped-out", []groupSpec{g(1, 1, false, 1, 2), g(2, 1, false, 3, 4), g(0, 3, true, 1, 2, 3, 4)}, []int{1, 2, 3, 4}, []int{3, 4}},
+		// overlapping groups, no base group; the shared log fails
+		{"overlap-no-base-unsat", []groupSpec{g(3, 1, false, 1, 2), g(4, 2, false, 2, 3)}, []int{1, 2, 3}, []int{2}},
+		{"overlap-no-base-sat", []groupSpec{g(3, 1, false, 1, 2), g(4, 1, false, 2, 3)}, []int{1, 2, 3}, []int{2}},
+		// nothing fails (the reference point of the grid)
+		{"all-answer", []groupSpec{g(1, 1, false, 1, 2), g(2, 1, false, 3), g(0, 3, true, 1, 2, 3)}, []int{1, 2, 3}, nil},
+	}
+	type failure struct {
+		name   string
+		script logScript
+	}
+	for round := 0; round < rounds; round++ {
+		for _, sh := range shapes {
+			for _, fl := range []failure{{"error", logScript{Outcome: oErr, HonourCtx: true}}, {"hang", logScript{Outcome: oHang, HonourCtx: true}},
+				{"hang-ignoring-ctx", logScript{Outcome: oHang}}} {
+				if sh.fail == nil && fl.name != "error" {
+					continue
+				}
+				for _, cs := range []ctxSpec{ctxNone(), ctxDeadline(longDeadline), ctxDeadline(shortInstant(r)), ctxCancelAt(shortInstant(r))} {
+					sc := map[int]logScript{}
+					for i, id := range sh.ids {
+						// answers before, between and after the stagger instants of the other races
+						lat := time.Duration([]int{0, 0, 1, 2, 3}[r.Intn(5)])*time.Second + time.Duration(3+7*i)*time.Millisecond
+						sc[id] = logScript{Outcome: oSCT, Latency: lat, HonourCtx: r.Intn(4) != 0}
+						if contains(sh.fail, id) {
+							f := fl.script
+							f.Latency = lat
+							sc[id] = f
+						}
+					}
+					oneRun(t, w, sh.gs, sh.ids, "shared:"+sh.name, sc, cs, "B:shared-grid", "B:shared-grid:"+fl.name)
+				}
+			}
 		}
-		w.Add(lib.Case{
-			Coq:    fmt.Sprintf("CRun %s %s %s %s %s", coqGroups(gs), coqEvs(o.Evs), nlist(o.SCTs), lib.Bool(o.OK), coqReqs(ids, o.Counts)),
-			Input:  map[string]interface{}{"kind": "getscts", "groups": gs, "scripts": sc, "deadline_ns": deadline},
-			Impl:   o,
-			PropOK: ok, Note: note,
-			Tags: []string{"B:" + kind, "B:" + outcomeTag(o), fmt.Sprintf("B:logs=%d", len(ids))},
-		})
 	}
 }
 
@@ -1141,7 +1554,7 @@ func streamDist(t *testing.T, r *mrand.Rand, w adder, n int) {
 		sort.Ints(clientIDs)
 		sort.Ints(usableIDs)
 		sc := genScripts(r, clientIDs, []int{95, 75}[r.Intn(2)])
-		deadline := pickDeadline(r)
+		cs := pickCtx(r)
 		info := rootInfo(ops)
 		// what the distributor will have learnt about roots
 		known := map[int]bool{}
@@ -1183,7 +1596,7 @@ func streamDist(t *testing.T, r *mrand.Rand, w adder, n int) {
 		for _, id := range usableIDs {
 			mainLogs[id] = true
 		}
-		o := runBubble(t, deadline, func(ctx context.Context, rc *recorder) ([]int, bool) {
+		o := runBubble(t, cs, func(ctx context.Context, rc *recorder) ([]int, bool) {
 			rc.mainLogs = mainLogs
 			rcur = rc
 			var opts []submission.DistributorOption
@@ -1253,7 +1666,7 @@ func streamDist(t *testing.T, r *mrand.Rand, w adder, n int) {
 			}
 			o2 := *o
 			o2.Counts = mainCounts
-			ok, note = propRun(gs, sc, &o2, allowed)
+			ok, note = propRun(gs, sc, &o2, allowed, cs)
 			if note != "" {
 				note = "distributor " + note
 			}
@@ -1263,6 +1676,9 @@ func streamDist(t *testing.T, r *mrand.Rand, w adder, n int) {
 				if c > 0 && mainLogs[id] {
 					ok, note = false, fmt.Sprintf("distributor contacted-log-although-refused log=%d", id)
 				}
+			}
+			if tok, tnote := propTermination(nil, sc, o, cs); ok && !tok { // a refusal terminates too, and leaves nothing behind
+				ok, note = false, "distributor "+tnote
 			}
 		}
 		// the side submission only ever touches pending / qualified logs, each at most once
@@ -1274,8 +1690,11 @@ func streamDist(t *testing.T, r *mrand.Rand, w adder, n int) {
 			}
 		}
 		evs := o.Evs
+		ctags := []string{"C:ctx=" + cs.Kind}
 		if class != 0 {
 			evs = nil
+		} else if gs != nil {
+			ctags = terminationTags("C", gs, sc, cs, o)
 		}
 		w.Add(lib.Case{
 			Coq: fmt.Sprintf("CDist %s %s %s %s %s %s %s %s %s %s %s %s %s %s", cpol, coqLogList(mops), coqRoots(mops),
@@ -1283,10 +1702,11 @@ func streamDist(t *testing.T, r *mrand.Rand, w adder, n int) {
 				coqEvs(evs), nlist(o.SCTs), lib.Bool(o.OK), coqReqs(usableIDs, o.Counts)),
 			Input: map[string]interface{}{"kind": "distributor", "policy": cpol, "ops": ops, "check_disabled": dis, "roots_refreshed": refresh,
 				"chain_root": k, "root_in_chain": withRoot, "precert": pre, "load_pending": loadPending, "not_before": nb, "not_after": na,
-				"scripts": sc, "deadline_ns": deadline},
+				"scripts": sc, "context": cs},
 			Impl:   map[string]interface{}{"class": class, "run": o},
 			PropOK: ok, Note: note,
-			Tags: []string{"C:" + cpol, fmt.Sprintf("C:class=%d", class), "C:" + outcomeTag(o), fmt.Sprintf("C:check_disabled=%v", dis), fmt.Sprintf("C:pending=%v", loadPending)},
+			Tags: append([]string{"C:" + cpol, fmt.Sprintf("C:class=%d", class), "C:" + outcomeTag(o), fmt.Sprintf("C:check_disabled=%v", dis), fmt.Sprintf("C:pending=%v", loadPending)},
+				ctags...),
 		})
 	}
 }
@@ -1356,7 +1776,7 @@ func streamStress(t *testing.T, r *mrand.Rand, w adder, rounds int, outdir strin
 			var results []string
 			var mu sync.Mutex
 			var rcur *recorder
-			o := runBubble(t, 10*time.Minute, func(ctx context.Context, rc *recorder) ([]int, bool) {
+			o := runBubble(t, ctxDeadline(10*time.Minute), func(ctx context.Context, rc *recorder) ([]int, bool) {
 				rcur = rc
 				d, err := submission.NewDistributor(mkLogList(ops), ctpolicy.ChromeCTPolicy{}, func(l *loglist3.Log) (client.AddLogClient, error) {
 					id := idOf(l.URL)
@@ -1449,7 +1869,7 @@ func streamStress(t *testing.T, r *mrand.Rand, w adder, rounds int, outdir strin
 			var results []string
 			var mu sync.Mutex
 			var rcur *recorder
-			o := runBubble(t, 10*time.Minute, func(_ context.Context, rc *recorder) ([]int, bool) {
+			o := runBubble(t, ctxDeadline(10*time.Minute), func(_ context.Context, rc *recorder) ([]int, bool) {
 				rcur = rc
 				ctx, cancel := context.WithCancel(context.Background())
 				defer cancel()
@@ -1526,7 +1946,7 @@ func streamProxyInit(t *testing.T, w adder, outdir string) {
 	var before, after error
 	var nAfter int
 	var rcur *recorder
-	o := runBubble(t, 10*time.Minute, func(_ context.Context, rc *recorder) ([]int, bool) {
+	o := runBubble(t, ctxDeadline(10*time.Minute), func(_ context.Context, rc *recorder) ([]int, bool) {
 		rcur = rc
 		ctx, cancel := context.WithCancel(context.Background())
 		defer cancel()
@@ -1569,7 +1989,7 @@ func streamPost(t *testing.T, r *mrand.Rand, w adder, n int) {
 			sc[k] = logScript{oHang, 0, true}
 		}
 		gs := []groupSpec{{3, ids, mn, false, ids}}
-		o := runBubble(t, 20*time.Second+time.Microsecond, func(ctx context.Context, rc *recorder) ([]int, bool) {
+		o := runBubble(t, ctxDeadline(20*time.Second+time.Microsecond), func(ctx context.Context, rc *recorder) ([]int, bool) {
 			res, err := submission.GetSCTs(ctx, &scriptedSubmitter{rc, sc}, []ct.ASN1Cert{{Data: []byte{9}}}, false, mkPolicyData(gs))
 			return sctIDs(res), err == nil
 		})
@@ -1624,8 +2044,9 @@ const childEnv = "C17_CHILD_OUT"
 
 // timedStreams: everything that runs GetSCTs inside synctest bubbles in bulk.
 func timedStreams(t *testing.T, r *mrand.Rand, w adder) {
-	streamRuns(t, r, w, lib.Count(220, 4000))
-	streamDist(t, r, w, lib.Count(70, 1200))
+	streamRuns(t, r, w, lib.Count(300, 5000))
+	streamShared(t, r, w, lib.Count(1, 12))
+	streamDist(t, r, w, lib.Count(100, 1600))
 	streamPost(t, r, w, lib.Count(6, 60))
 }
 
